@@ -27,7 +27,7 @@ import (
 	"time"
 
 	"github.com/foxcpp/go-mockdns"
-	"github.com/foxcpp/maddy/framework/cfgparser"
+	parser "github.com/foxcpp/maddy/framework/cfgparser"
 	"github.com/foxcpp/maddy/framework/config"
 	"github.com/foxcpp/maddy/framework/log"
 	"github.com/foxcpp/maddy/framework/module"
@@ -62,8 +62,9 @@ func c03Register() {
 			c03Targets[i] = &vc03.Target{Idx: i, L: c03Log}
 			module.RegisterInstance(c03Targets[i], nil)
 		}
-		module.RegisterInstance(&vc03.Check{L: c03Log}, nil)
-		module.RegisterInstance(&vc03.Modifier{L: c03Log}, nil)
+		chk, mod := &vc03.Check{L: c03Log}, &vc03.Modifier{L: c03Log}
+		module.Register("check.vc03", func(_, _ string, _, _ []string) (module.Module, error) { return chk, nil })
+		module.Register("modify.vc03", func(_, _ string, _, _ []string) (module.Module, error) { return mod, nil })
 	})
 }
 
@@ -168,9 +169,10 @@ func c03Endpoint(t *testing.T, s *c03Scn, elog *c03ErrLog) (*Endpoint, string) {
 
 	// the pipeline, from configuration text
 	var b strings.Builder
-	b.WriteString("check {\n &vc03chk\n}\nmodify {\n &vc03mod\n}\n")
+	b.WriteString("check {\n vc03\n}\nmodify {\n vc03\n}\n")
 	for j, mask := range s.routes {
 		fmt.Fprintf(&b, "destination d%d.example {\n", j)
+		mask &= 1<<s.nT - 1
 		if mask == 0 {
 			b.WriteString(" reject 556 5.1.1 \"refused by route\"\n")
 		}
@@ -182,7 +184,7 @@ func c03Endpoint(t *testing.T, s *c03Scn, elog *c03ErrLog) (*Endpoint, string) {
 		b.WriteString("}\n")
 	}
 	b.WriteString("default_destination {\n reject 557 5.1.1 \"unknown domain\"\n}\n")
-	nodes, err := cfgparser.Read(strings.NewReader(b.String()), "c03")
+	nodes, err := parser.Read(strings.NewReader(b.String()), "c03")
 	if err != nil {
 		t.Fatal(err)
 	}
@@ -250,15 +252,17 @@ func c03Rcpt(id, j, variant, cls, flags, mask string, n int) string {
 // message text for D / B tokens: kind o (plain), r (too many Received fields), h (header larger than the limit)
 func c03Message(kind, cls, flags, bmask, plist string) string {
 	var b strings.Builder
+	if kind == "h" {
+		// the header limit is reached inside these fixed lines, whatever the fault fields are
+		for i := 0; i < 60; i++ {
+			fmt.Fprintf(&b, "X-Filler-%02d: %s\r\n", i, strings.Repeat("f", 50))
+		}
+	}
 	fmt.Fprintf(&b, "X-Vc03: %s-%s-%s-P%s\r\n", cls, flags, bmask, plist)
 	switch kind {
 	case "r":
 		for i := 0; i <= c03MaxRecv; i++ {
 			fmt.Fprintf(&b, "Received: from hop%d.example by hop%d.example; Mon, 2 Jan 2006 15:04:05 +0000\r\n", i, i+1)
-		}
-	case "h":
-		for i := 0; i < 60; i++ {
-			fmt.Fprintf(&b, "X-Filler-%02d: %s\r\n", i, strings.Repeat("f", 50))
 		}
 	}
 	b.WriteString("From: <sender@src.example>\r\nSubject: c03\r\n\r\nbody line one\r\nbody line two\r\n")
@@ -320,6 +324,7 @@ func (w *c03Client) untilSentinel() []int {
 
 type c03TokRes struct {
 	tok   string
+	skip  bool   // BDAT not sent: the server holds no accepted recipient
 	codes []int  // replies attributed to the token (0 entries never stored)
 	gone  bool   // the connection was gone before any reply
 	addr  string // R tokens: the address sent
@@ -327,6 +332,9 @@ type c03TokRes struct {
 }
 
 func c03Codes(r c03TokRes) string {
+	if r.skip {
+		return "-"
+	}
 	if len(r.codes) == 0 {
 		return "x"
 	}
@@ -350,17 +358,36 @@ func c03Run(t *testing.T, s *c03Scn, addr string) []c03TokRes {
 	}
 	res := make([]c03TokRes, len(s.toks))
 	var pending []int // indexes of pipelined tokens whose single reply is still to be read
+	var account func(i int)
 	flush := func() {
 		for _, i := range pending {
 			code, _ := w.reply()
 			if code != 0 {
 				res[i].codes = append(res[i].codes, code)
 			}
+			account(i)
 		}
 		pending = nil
 	}
 	lastRcpt := ""
 	lastRoute := -1
+	// what a client knows about the server's transaction: recipients answered 250 since the last reset.
+	// BDAT is only sent while there is one (a BDAT refused with 502 leaves its chunk on the wire to be
+	// parsed as commands)
+	cliRcpts := 0
+	account = func(i int) {
+		tok := strings.TrimSuffix(s.toks[i], "~")
+		first := 0
+		if len(res[i].codes) > 0 {
+			first = res[i].codes[0]
+		}
+		switch {
+		case res[i].addr != "" && first == 250:
+			cliRcpts++
+		case tok == "S" && first == 250:
+			cliRcpts = 0
+		}
+	}
 	for i, tokFull := range s.toks {
 		res[i].tok = tokFull
 		res[i].route = -1
@@ -368,6 +395,10 @@ func c03Run(t *testing.T, s *c03Scn, addr string) []c03TokRes {
 		piped := tok != tokFull
 		f := strings.Split(tok, ":")
 		simple := "" // a command with exactly one reply
+		// "R=" repeats the address of the token right before it (only)
+		if !(i > 0 && res[i-1].addr != "") {
+			lastRcpt, lastRoute = "", -1
+		}
 		switch {
 		case tok == "E":
 			if s.lmtp {
@@ -393,8 +424,6 @@ func c03Run(t *testing.T, s *c03Scn, addr string) []c03TokRes {
 			simple = "NOOP"
 		case tok == "S":
 			simple = "RSET"
-		case tok == "Z":
-			simple = "FROB nicate"
 		case tok == "V":
 			simple = "VRFY someone"
 		case tok == "Q":
@@ -449,6 +478,10 @@ func c03Run(t *testing.T, s *c03Scn, addr string) []c03TokRes {
 		case tok == "X":
 			conn.Close()
 			w.dead = true
+		case tok == "Z":
+			// an unknown command: one reply, or two and the end of the connection after too many errors
+			w.send("FROB nicate\r\n")
+			res[i].codes = append(res[i].codes, w.untilSentinel()...)
 		case f[0] == "D" && len(f) == 6:
 			if f[1] == "a" {
 				w.send("DATA now\r\n")
@@ -465,6 +498,7 @@ func c03Run(t *testing.T, s *c03Scn, addr string) []c03TokRes {
 			if code != 354 {
 				break
 			}
+			cliRcpts = 0
 			msg := c03Message(f[1], f[2], f[3], f[4], f[5])
 			if f[1] == "t" {
 				w.send(msg[:len(msg)/2])
@@ -474,6 +508,8 @@ func c03Run(t *testing.T, s *c03Scn, addr string) []c03TokRes {
 			}
 			w.send(msg + ".\r\n")
 			res[i].codes = append(res[i].codes, w.untilSentinel()...)
+		case (f[0] == "Bf" || f[0] == "Bp" || tok == "Bl") && cliRcpts == 0:
+			res[i].skip = true
 		case (f[0] == "Bf" || f[0] == "Bp") && len(f) == 6:
 			msg := c03Message(f[1], f[2], f[3], f[4], f[5])
 			if f[0] == "Bf" {
@@ -482,9 +518,13 @@ func c03Run(t *testing.T, s *c03Scn, addr string) []c03TokRes {
 				w.send(fmt.Sprintf("BDAT %d\r\n%s", len(msg), msg))
 			}
 			res[i].codes = append(res[i].codes, w.untilSentinel()...)
+			if f[0] == "Bf" || len(res[i].codes) != 1 || res[i].codes[0] != 250 {
+				cliRcpts = 0
+			}
 		case tok == "Bl":
 			w.send(fmt.Sprintf("BDAT %d LAST\r\n%s", len(c03Tail), c03Tail))
 			res[i].codes = append(res[i].codes, w.untilSentinel()...)
+			cliRcpts = 0
 		default:
 			t.Fatalf("bad token %q in %s", tokFull, s.line())
 		}
@@ -562,18 +602,44 @@ func c03Observe(s *c03Scn, res []c03TokRes, leakA, leakB, panics int) string {
 	return fmt.Sprintf("%s | %s | leak=%d,%d | panics=%d", strings.Join(r, " "), strings.Join(tg, " "), leakA, leakB, panics)
 }
 
+// the iteration order Go chose for each fan-out over the deliveries map: one segment per fan-out (body
+// phase, closing phase) of a pipeline delivery, in the order the fan-outs happened
 func c03Oracle() string {
-	var p []string
+	var segs []string
+	cur := ""
+	var curMeta *module.MsgMetadata
+	curPhase := byte(0)
 	for _, e := range c03Log.Fan {
-		p = append(p, strconv.Itoa(e.Tgt))
+		phase := byte('c')
+		if e.Kind == 'B' || e.Kind == 'N' {
+			phase = 'b'
+		}
+		if cur != "" && (e.Del.Meta != curMeta || phase != curPhase) {
+			segs = append(segs, cur)
+			cur = ""
+		}
+		curMeta, curPhase = e.Del.Meta, phase
+		cur += strconv.Itoa(e.Tgt)
 	}
-	if len(p) == 0 {
+	if cur != "" {
+		segs = append(segs, cur)
+	}
+	if len(segs) == 0 {
 		return "O:-"
 	}
-	return "O:" + strings.Join(p, "")
+	return "O:" + strings.Join(segs, ",")
 }
 
 // ---------------------------------------------------------------- the property, evaluated on the real run
+
+// the endpoint hands recipients to the pipeline with the domain case-folded
+func c03Canon(a string) string {
+	at := strings.LastIndexByte(a, '@')
+	if at < 0 {
+		return a
+	}
+	return a[:at] + strings.ToLower(a[at:])
+}
 
 func c03Monitor(out *vh.Out, s *c03Scn, line string, res []c03TokRes, leakA, leakB int) {
 	viol := func(sig, detail string) { out.Violation("C03/"+sig, line, detail) }
@@ -618,7 +684,7 @@ func c03Monitor(out *vh.Out, s *c03Scn, line string, res []c03TokRes, leakA, lea
 		}
 		added := false
 		for _, e := range d.Evs {
-			if e.Op == 'R' && e.OK && e.Addr == addr {
+			if e.Op == 'R' && e.OK && e.Addr == c03Canon(addr) {
 				added = true
 			}
 		}
@@ -626,7 +692,7 @@ func c03Monitor(out *vh.Out, s *c03Scn, line string, res []c03TokRes, leakA, lea
 			return false
 		}
 		if d.Partial && len(d.Status) > 0 {
-			return d.Status[addr]
+			return d.Status[c03Canon(addr)]
 		}
 		return d.BodyOK
 	}
@@ -695,20 +761,49 @@ func c03Monitor(out *vh.Out, s *c03Scn, line string, res []c03TokRes, leakA, lea
 			out.Stat("mon.lmtp.replies-not-attributable")
 			return
 		}
-		allFailed := true
 		for n, r := range accepted {
 			if finals[n]/100 == 2 {
-				allFailed = false
 				checkHeld(r)
 				out.Stat("mon.lmtp.rcpt.success")
-			} else {
-				out.Stat("mon.lmtp.rcpt.failure")
+				continue
 			}
-		}
-		if allFailed && !commitFailed {
+			out.Stat("mon.lmtp.rcpt.failure")
+			if commitFailed {
+				out.Stat("mon.lmtp.rcpt.failure-at-commit")
+				continue
+			}
+			// refused before the commit step: the recipient may be held only by a target that accepted the
+			// body for it while ANOTHER of its targets refused it (each reply is the conjunction of the
+			// recipient's own targets); if none of its targets refused it, nothing may be committed for it
+			ownTargetFailed := false
+			var holders []*vc03.Del
 			for _, d := range dels {
-				if d.Commit == 1 {
-					viol("refused-but-committed", fmt.Sprintf("token %d: every recipient was refused before the commit step, but delivery on target %d %s is committed", i, d.Tgt, c03DelStr(d)))
+				if r.route&(1<<d.Tgt) == 0 {
+					continue
+				}
+				added := false
+				for _, e := range d.Evs {
+					if e.Op == 'R' && e.OK && e.Addr == c03Canon(r.addr) {
+						added = true
+					}
+				}
+				if !added {
+					continue
+				}
+				bodyOK := d.BodyOK
+				if d.Partial && len(d.Status) > 0 {
+					bodyOK = d.Status[c03Canon(r.addr)]
+				}
+				if d.BodySeen && !bodyOK {
+					ownTargetFailed = true
+				}
+				if holds(d, r.addr) {
+					holders = append(holders, d)
+				}
+			}
+			if !ownTargetFailed {
+				for _, d := range holders {
+					viol("refused-but-committed", fmt.Sprintf("token %d: recipient %s was refused (%d) before the commit step although none of its targets refused it, but target %d %s holds the message for it", i, r.addr, finals[n], d.Tgt, c03DelStr(d)))
 				}
 			}
 		}
@@ -722,7 +817,7 @@ func c03Monitor(out *vh.Out, s *c03Scn, line string, res []c03TokRes, leakA, lea
 		}
 		switch {
 		case r.addr != "":
-			attempted[r.addr] = true
+			attempted[c03Canon(r.addr)] = true
 			if first == 250 {
 				accepted = append(accepted, rc{r.addr, r.route, i})
 			}
@@ -731,6 +826,7 @@ func c03Monitor(out *vh.Out, s *c03Scn, line string, res []c03TokRes, leakA, lea
 		case f[0] == "D" && first == 354:
 			finish(i, r.codes[1:])
 			endTx()
+		case r.skip:
 		case f[0] == "Bf" || tok == "Bl":
 			if first == 501 || first == 502 || first == 0 {
 				break
@@ -794,36 +890,36 @@ func (g *c03Gen) mail() string {
 		kind = "A"
 	case x < 14:
 		kind = "n"
-	case x < 18:
+	case x < 16:
 		kind = "x"
-	case x < 22:
+	case x < 19:
 		kind = "u"
-	case x < 26:
+	case x < 24:
 		kind = "8"
-	case x < 29:
+	case x < 26:
 		kind = "p"
-	case x < 32:
+	case x < 28:
 		kind = "z"
 	}
 	if kind == "n" {
 		return "M:n:p:0:000"
 	}
-	return fmt.Sprintf("M:%s:%s:%s:%d%d%d", kind, c03Cls(r), c03Fault(r, g.pct/3, "csiw"),
-		c03Mask(r, g.pct/2, g.s.nT), c03Mask(r, g.pct/2, g.s.nT), c03Mask(r, g.pct/2, g.s.nT))
+	return fmt.Sprintf("M:%s:%s:%s:%d%d%d", kind, c03Cls(r), c03Fault(r, g.pct/6, "csiw"),
+		c03Mask(r, g.pct/3, g.s.nT), c03Mask(r, g.pct/2, g.s.nT), c03Mask(r, g.pct/2, g.s.nT))
 }
 
 func (g *c03Gen) rcpt() string {
 	r := g.r
 	variant := "a"
 	switch x := r.Intn(100); {
-	case x < 8:
+	case x < 10:
 		variant = "U"
-	case x < 12:
+	case x < 13:
 		variant = "x"
-	case x < 16:
+	case x < 17:
 		variant = "u"
 	}
-	return fmt.Sprintf("R:%d:%d:%s:%s:%s:%d", r.Intn(6), r.Intn(3), variant, c03Cls(r), c03Fault(r, g.pct/3, "cm"), c03Mask(r, g.pct/2, g.s.nT))
+	return fmt.Sprintf("R:%d:%d:%s:%s:%s:%d", r.Intn(6), r.Intn(3), variant, c03Cls(r), c03Fault(r, g.pct/5, "cm"), c03Mask(r, g.pct/3, g.s.nT))
 }
 
 func (g *c03Gen) dataArgs() string {
@@ -867,15 +963,15 @@ func c03GenScn(r *vh.Rng) *c03Scn {
 		s.partial = c03Mask(r, 45, s.nT)
 	}
 	for j := range s.routes {
-		if r.Chance(12) {
+		if r.Chance(8) {
 			s.routes[j] = 0
 		} else {
 			s.routes[j] = 1 + r.Intn(1<<s.nT-1)
 		}
 	}
-	g := &c03Gen{r: r, s: s, pct: []int{0, 10, 25, 45, 70}[r.Intn(5)]}
+	g := &c03Gen{r: r, s: s, pct: []int{0, 0, 0, 8, 8, 8, 20, 20, 40, 70}[r.Intn(10)]}
 	var toks []string
-	if r.Chance(65) {
+	if r.Chance(80) {
 		// a plausible client, then damaged
 		toks = append(toks, "E")
 		if r.Chance(15) {
@@ -897,7 +993,7 @@ func c03GenScn(r *vh.Rng) *c03Scn {
 				toks = append(toks, "S")
 			}
 		}
-		for k := r.Intn(4); k > 0 && len(toks) > 1; k-- {
+		for k := r.Intn(3) * r.Intn(2); k > 0 && len(toks) > 1; k-- {
 			i := r.Intn(len(toks))
 			switch r.Intn(4) {
 			case 0:
@@ -1050,7 +1146,7 @@ func TestVerifC03Sessions(t *testing.T) {
 		}
 	} else {
 		n := vh.N(400)
-		rng := vh.NewRng(vh.Seed() + 301)
+		rng := vh.NewRng(vh.Seed()*829367861 + 301) // consecutive vh seeds are consecutive splitmix states: spread them
 		for i := 0; i < n; i++ {
 			scns = append(scns, c03GenScn(rng.Fork()))
 		}
